@@ -49,6 +49,9 @@ fn contexts() -> Vec<&'static str> {
         "IF {e} THEN PRINT 1 ELSE IF 1 THEN PRINT 2 ELSE PRINT 3",
         "IF {e} THEN GOSUB 100 ELSE GOSUB 100",
         "IF {e} THEN FOR I = 1 TO 2 ELSE PRINT 2: NEXT I",
+        // an IF that is not the first statement of its line, resumed inside its THEN clause
+        "Y = 1: IF {e} THEN GOSUB 100 ELSE PRINT 2",
+        "PRINT 1;: Y = 2: IF {e} THEN GOSUB 100 ELSE GOSUB 100",
         // later subscripts of an array reference, in every role an array reference can play
         "X = M(1,{e})",
         "M(1,{e}) = 2",
